@@ -228,6 +228,9 @@ def run(prop, tier):
         ctx.cov["distinct_nontrivial"] = ctx.cov["states"]
         ctx.assumptions += ["per-CPU reference values are derived from the displayed cpu.prv rows with the rule of the property statement; "
                             "a paused task with the body region still open shows the subsystem; it may show nothing only if the task went away after the subsystem last changed"]
+        from checks import soak
+        if not ctx.out_of_time(0.9):
+            soak.run_for(ctx, build, scratch, "C20", tier)
         return ctx.finish()
     finally:
         scratch.cleanup()
